@@ -9,7 +9,18 @@ AU = "porepy/numerics/ad/ad_utils.py"
 
 ES = "porepy/numerics/ad/equation_system.py"
 
+MD = "porepy/grids/md_grid.py"
+
 MUTANTS = {
+    "C24": [
+        {"name": "removal_keeps_interface_pair_entry", "file": MD, "old": "            del self._interface_data[intf]\n            del self._interface_to_subdomains[intf]", "new": "            del self._interface_data[intf]"},
+        {"name": "sort_ascending_dimension", "file": MD, "old": "        for dim in np.arange(self.dim_max(), -1, -1):", "new": "        for dim in np.arange(0, self.dim_max() + 1):"},
+        {"name": "sort_descending_id", "file": MD, "old": "            sort_inds_dim: np.ndarray = np.argsort(ids_dim)", "new": "            sort_inds_dim: np.ndarray = np.argsort(ids_dim)[::-1]"},
+        {"name": "replace_keeps_old_boundary_grid", "file": MD, "old": "                    self._subdomain_to_boundary_grid[sd_new] = bg_new", "new": "                    self._subdomain_to_boundary_grid[sd_new] = bg_old"},
+        {"name": "removal_keeps_boundary_data", "file": MD, "old": "            del self._boundary_grid_data[bg_to_remove]\n", "new": ""},
+        {"name": "revert_0d_guard", "file": MD, "old": "        if sd in self._subdomain_to_boundary_grid:\n            bg_to_remove", "new": "        if True:\n            bg_to_remove"},
+        {"name": "revert_codim_check_order", "file": MD, "old": "        if np.abs(sd_pair[0].dim - sd_pair[1].dim) >= 3:\n            raise ValueError(\"Can only handle subdomain coupling of co-dimension <= 2\")\n", "new": ""},
+    ],
     "C05": [
         {"name": "cluster_interfaces_first", "edits": [
             {"file": ES, "old": "        # 1. Per subdomain, order variables\n        for grid in self.mdg.subdomains():",
